@@ -180,6 +180,10 @@ type adminOp struct {
 	checkpoint string
 	addsBefore int64
 	missed     map[string]bool
+	// verify: the mode of the target when the request was sent, and the snapshot chains (names) of the
+	// target and of an RW replica as they were on disk then
+	verifyWasWO bool
+	verifyPre   *chainPair
 }
 
 type clRun struct {
@@ -232,8 +236,16 @@ type clRun struct {
 }
 
 func (cr *clRun) viol(prop, clause, format string, a ...interface{}) {
-	if cr.res.V != nil || cr.res.Other != "" || cr.res.Infra != "" {
+	if cr.res.V != nil || cr.res.Other != "" || cr.res.Infra != "" || cr.res.Abandoned != "" {
 		return
+	}
+	if a := cr.curAdmin; a != nil && a.kind == "verify" && a.verifyWasWO && clause != "verify-accepted-with-different-chains" && clause != "management-request-hung" {
+		// an out-of-band verifyrebuild for a rebuilding replica is in flight: if the controller accepts it
+		// (it cannot know that the copy has not finished) what follows is the harness's doing
+		if cr.c.ctrl != nil && modeOf(cr.c.ctrl.ListReplicas(), a.arg) == types.RW {
+			cr.res.Abandoned = "out-of-band verifyrebuild accepted while the copy was running (" + clause + " not judged)"
+			return
+		}
 	}
 	v := &Violation{Prop: prop, Clause: clause, Msg: fmt.Sprintf(format, a...), Step: cr.step}
 	if prop == cr.s.Prop {
@@ -243,7 +255,9 @@ func (cr *clRun) viol(prop, clause, format string, a ...interface{}) {
 	}
 }
 
-func (cr *clRun) stopped() bool { return cr.res.V != nil || cr.res.Other != "" || cr.res.Infra != "" }
+func (cr *clRun) stopped() bool {
+	return cr.res.V != nil || cr.res.Other != "" || cr.res.Infra != "" || cr.res.Abandoned != ""
+}
 
 func (clustersim) Run(t *testing.T, s *Script) *Result {
 	res := &Result{Stats: map[string]int64{}}
@@ -422,6 +436,13 @@ func (cr *clRun) exec(i int, op Op) {
 				if a.kind == "resize" && a.missed != nil {
 					a.missed[rn.addr] = true
 				}
+			}
+			// ... and it holds none of the snapshots and reverts the destroyed disk held
+			for _, sn := range cr.snaps {
+				delete(sn.holders, rn.addr)
+			}
+			for _, rv := range cr.reverts {
+				delete(rv.holders, rn.addr)
 			}
 			c.startReplica(rn)
 			cr.note("replace", rn.name)
@@ -2051,9 +2072,21 @@ func (clustersim) Generate(rng *Rand, prop, tier string) *Script {
 				// lose one management call somewhere inside the add/rebuild conversation
 				add(Op{K: "httpfault", A: victim, B: 1, F: rng.Bool(50), C: int64(rng.Intn(14))})
 			}
-			add(Op{K: "restart", A: victim})
+			earlyVerify := false
+			if rng.Bool(30) {
+				// the replica comes back with an empty disk (no checkpoint, no snapshots of its own) ...
+				add(Op{K: "replace", A: victim})
+				// ... and somebody asks the controller to verify/promote it while the copy is still running
+				earlyVerify = rng.Bool(60)
+			} else {
+				add(Op{K: "restart", A: victim})
+				earlyVerify = rng.Bool(15)
+			}
 			add(Op{K: "adv", A: int64(rng.Range(5, 2500))})
 			for i, k := 0, rng.Range(1, 5); i < k; i++ {
+				if earlyVerify && rng.Bool(50) {
+					add(Op{K: "verify", A: victim})
+				}
 				if rng.Bool(20) {
 					// a transient disk error on the rebuilding replica (or another one) for the next write
 					dv := victim
